@@ -256,7 +256,7 @@ func (g *Gen) needStr() {
 	g.sc.addAxiom([]string{"sub", "at"}, fmt.Sprintf("(assert (forall ((s Str) (a %s) (b %s) (i %s)) (! (=> (and %s %s %s %s %s) (= (at (sub s a b) i) (at s %s))) :pattern ((at (sub s a b) i)))))",
 		ix, ix, ix, le(zero, "a"), le("a", "b"), le("b", "(len s)"), le(zero, "i"), lt("i", subi("b", "a")), add("a", "i")))
 	g.sc.addAxiom([]string{"sub"}, fmt.Sprintf("(assert (forall ((s Str)) (! (= (sub s %s (len s)) s) :pattern ((sub s %s (len s))))))", zero, zero))
-	g.sc.addAxiom([]string{"concat"}, fmt.Sprintf("(assert (forall ((a Str) (b Str)) (! (= (len (concat a b)) %s) :pattern ((concat a b)))))", add("(len a)", "(len b)")))
+	g.sc.addAxiom([]string{"concat"}, fmt.Sprintf("(assert (forall ((a Str) (b Str)) (! (=> %s (= (len (concat a b)) %s)) :pattern ((concat a b)))))", le(add("(len a)", "(len b)"), lim), add("(len a)", "(len b)")))
 	g.sc.addAxiom([]string{"concat", "at"}, fmt.Sprintf("(assert (forall ((a Str) (b Str) (i %s)) (! (=> (and %s %s) (= (at (concat a b) i) (ite %s (at a i) (at b %s)))) :pattern ((at (concat a b) i)))))",
 		ix, le(zero, "i"), lt("i", add("(len a)", "(len b)")), lt("i", "(len a)"), subi("i", "(len a)")))
 }
